@@ -101,8 +101,10 @@ def probe_element(rng, k, i):
             ppr.append(X("w:pStyle", {"w:val": sid}))
         if rng.random() < 0.4:
             lvl, numid = rng.choice([0, 1, 2]), rng.choice(["1", "2"])
+            if rng.random() < 0.25:
+                lvl, numid = 5, "1"        # the sixth level of abstractNum 0 (a numbered format): deeper than any default mapping
             ppr.append(X("w:numPr", {}, [X("w:ilvl", {"w:val": str(lvl)}), X("w:numId", {"w:val": numid})]))
-            el["numbering"] = (str(lvl), {"1": [False, False, True], "2": [True, True, False]}[numid][lvl])
+            el["numbering"] = (str(lvl), {"1": [False, False, True, True, False, True], "2": [True, True, False]}[numid][lvl])
         elif sid == "ListParagraph":
             el["numbering"] = ("0", True)      # numbering through the paragraph style (w:pStyle in abstractNum 1, level 0, decimal)
         return X("w:p", {}, ([X("w:pPr", {}, ppr)] if ppr else []) + [run]), el
@@ -230,7 +232,9 @@ def run(ctx):
                         dist["winner_default_or_none"] += 1
                     if classes:
                         bad = "%s: no explicit or embedded mapping matches, but the output carries marker %s" % (e["text"], classes)
-                    elif k == "p" and not incl_def and not any(nm == "p" for nm, _ in chain):
+                    elif k == "p" and not any(nm == "p" for nm, _ in chain) and (
+                            not incl_def or (e.get("numbering") and int(e["numbering"][0]) >= 5 and e.get("style_id") != "Heading1")):
+                        # (with the defaults in force the same holds for a list level below every default list mapping)
                         bad = "%s: an unmatched paragraph did not become p" % e["text"]
                 if bad:
                     break
